@@ -87,9 +87,10 @@ Proof.
     destruct (ts_ltb (t_newest st) (mod_time (output_info (NSuccessfulCommand h infos)))) eqn:L; reflexivity.
 Qed.
 
-Lemma provide_can_update st v : t_can_update (provide st v) = t_can_update st && negb (delivers_missing v).
+Lemma provide_can_update st v : t_can_update (provide st v) = t_can_update st && stamped v.
 Proof.
-  destruct v as [f| |h infos| |]; cbn [provide delivers_missing negb]; rewrite ?andb_true_r; try reflexivity.
+  unfold stamped.
+  destruct v as [f| |h infos| |]; cbn [provide delivers_missing is_bad negb andb]; rewrite ?andb_false_r; try reflexivity.
   - destruct (is_missing (output_info (NExistingInput f))) eqn:M; cbn [negb]; [rewrite andb_false_r; reflexivity|].
     rewrite andb_true_r.
     destruct (ts_ltb (t_newest st) (mod_time (output_info (NExistingInput f)))) eqn:L; reflexivity.
@@ -119,7 +120,7 @@ Proof.
 Qed.
 
 Lemma fold_can_update vs : forall st,
-  t_can_update (fold_left provide vs st) = t_can_update st && forallb (fun v => negb (delivers_missing v)) vs.
+  t_can_update (fold_left provide vs st) = t_can_update st && forallb stamped vs.
 Proof.
   induction vs as [|v vs IH]; intros st; cbn [fold_left forallb]; [rewrite andb_true_r; reflexivity|].
   rewrite IH, provide_can_update, andb_assoc. reflexivity.
@@ -127,18 +128,18 @@ Qed.
 
 (* the fields of the task after all inputs were delivered, in closed form *)
 Lemma provide_all_should_skip c ins : t_should_skip (provide_all c ins) = existsb is_bad (requested ins).
-Proof. unfold provide_all. rewrite fold_should_skip. reflexivity. Qed.
+Proof. unfold provide_all, provide_all_with. rewrite fold_should_skip. reflexivity. Qed.
 
 Lemma provide_all_has_missing c ins : t_has_missing (provide_all c ins) = existsb is_missing_input (requested ins).
-Proof. unfold provide_all. rewrite fold_has_missing. reflexivity. Qed.
+Proof. unfold provide_all, provide_all_with. rewrite fold_has_missing. reflexivity. Qed.
 
 Lemma provide_all_can_update c ins :
-  t_can_update (provide_all c ins) = negb (c_has_deps c) && forallb (fun v => negb (delivers_missing v)) (requested ins).
-Proof. unfold provide_all. rewrite fold_can_update. reflexivity. Qed.
+  t_can_update (provide_all c ins) = negb (c_has_deps c) && forallb stamped (requested ins).
+Proof. unfold provide_all, provide_all_with. rewrite fold_can_update. reflexivity. Qed.
 
 (* newestModTime is the fold of the specification *)
 Lemma provide_all_newest c ins : t_newest (provide_all c ins) = newest_mod_time ins.
-Proof. unfold provide_all, newest_mod_time. rewrite fold_newest. reflexivity. Qed.
+Proof. unfold provide_all, provide_all_with, newest_mod_time. rewrite fold_newest. reflexivity. Qed.
 
 (* ... and that fold is the maximum of the stamps of the delivered, existing inputs *)
 Lemma newest_step_mono acc v : ts_le acc (newest_step acc v).
@@ -223,7 +224,7 @@ Lemma decide_eq x c prior ins outs :
   else if existsb is_bad (requested ins) then DSkip (existsb is_missing_input (requested ins))
   else DRun.
 Proof.
-  unfold decide, shortcut.
+  unfold decide, decide_with, shortcut. fold (provide_all c ins).
   rewrite provide_all_can_update, provide_all_newest, provide_all_should_skip, provide_all_has_missing.
   reflexivity.
 Qed.
@@ -268,14 +269,35 @@ Proof.
   destruct (shortcut x c prior ins outs); [discriminate|]. destruct (x_simulate x); discriminate.
 Qed.
 
-(* the command is skipped whenever the update-if-newer shortcut does not apply *)
-Lemma decide_bad_input_skips_partial x c prior ins outs :
+Lemma bad_not_stamped vs : existsb is_bad vs = true -> forallb stamped vs = false.
+Proof.
+  intros B. apply existsb_exists in B. destruct B as [v [I B]].
+  destruct (forallb stamped vs) eqn:F; [|reflexivity].
+  rewrite forallb_forall in F. specialize (F v I). unfold stamped in F. rewrite B in F. discriminate.
+Qed.
+
+Lemma shortcut_false_bad x c prior ins outs :
+  existsb is_bad (requested ins) = true -> shortcut x c prior ins outs = false.
+Proof.
+  intros B. unfold shortcut. rewrite (bad_not_stamped _ B). rewrite andb_false_r. reflexivity.
+Qed.
+
+(* a failed / missing / skipped input: the command is skipped (true = a missing input, reported as a failure) *)
+Lemma decide_bad_input_skips x c prior ins outs :
   existsb is_bad (requested ins) = true ->
   x_cancelled x = false -> c_phony c = false -> x_simulate x = false ->
-  shortcut x c prior ins outs = false ->
   decide x c prior ins outs = DSkip (existsb is_missing_input (requested ins)).
 Proof.
-  intros B XC P S SC. rewrite decide_eq, XC, P, SC, S, B. reflexivity.
+  intros B XC P S. rewrite decide_eq, XC, P, (shortcut_false_bad x c prior ins outs B), S, B. reflexivity.
+Qed.
+
+(* whatever the flags, it is never completed as up to date *)
+Lemma decide_bad_input_never_updates x c prior ins outs :
+  existsb is_bad (requested ins) = true -> decide x c prior ins outs <> DUpdateOnly.
+Proof.
+  intros B. rewrite decide_eq, (shortcut_false_bad x c prior ins outs B), B.
+  destruct (x_cancelled x); [discriminate|]. destruct (c_phony c); [discriminate|].
+  destruct (x_simulate x); discriminate.
 Qed.
 
 (* sufficient, user-level reasons for the shortcut not to apply *)
@@ -313,17 +335,17 @@ Lemma run_failed_never_valid c deps_ok outs_after outs' :
   command_valid c (fst (run_complete c false false deps_ok outs_after)) outs' = Some false.
 Proof. split; reflexivity. Qed.
 
-(* the full-strength claim "a failed/missing/skipped input => Skip" does NOT hold for the code:
-   command with unchanged hash whose output (stamp 5.0) is newer than its existing input (stamp 1.0) and
-   whose second input is missing: completed as successful and that value is valid. *)
-
-Lemma decide_bad_input_skips_refuted :
+(* the code before repair a03bdd8 examined shouldSkip only after the shortcut: a command with unchanged
+   hash whose output (stamp 5.0) is newer than its existing input (stamp 1.0) and whose second input is
+   MISSING was completed as successful, and that value was valid on the next build *)
+Lemma decide_unrepaired_bad_input_refuted :
   exists x c prior ins outs,
     x_cancelled x = false /\ x_simulate x = false /\ c_phony c = false /\
     In (CExplicit, NMissingInput) ins /\
-    decide x c prior ins outs = DUpdateOnly /\
-    produced c outs (decide x c prior ins outs) = Some (command_result c outs) /\
-    command_valid c (command_result c outs) outs = Some true.
+    decide_unrepaired x c prior ins outs = DUpdateOnly /\
+    produced c outs (decide_unrepaired x c prior ins outs) = Some (command_result c outs) /\
+    command_valid c (command_result c outs) outs = Some true /\
+    decide x c prior ins outs = DSkip true.
 Proof.
   exists (mkCtx false false false), (mkCmd 7 false false false false),
          (Some (NSuccessfulCommand 7 [fi_at 3 5 0])),
@@ -398,7 +420,7 @@ Qed.
 Lemma requested_ext ins ins' :
   requested ins = requested ins' -> forall x c prior outs, decide x c prior ins outs = decide x c prior ins' outs.
 Proof.
-  intros E x c prior outs. unfold decide, provide_all. rewrite E. reflexivity.
+  intros E x c prior outs. unfold decide, decide_with, provide_all_with. rewrite E. reflexivity.
 Qed.
 
 
@@ -594,14 +616,13 @@ Lemma decide_fresh_no_run x c ins outs :
   c_has_deps c = false ->
   forallb (fun f => negb (is_missing f)) outs = true ->
   (forall o, In o outs -> ts_lt (0, 0) (mod_time o)) ->
-  existsb is_bad (requested ins) = false ->
-  forallb (fun v => negb (delivers_missing v)) (requested ins) = true ->
+  forallb stamped (requested ins) = true ->
   all_newer ins outs ->
   decide x c (Some (command_result c outs)) ins outs <> DRun /\
   (x_cancelled x = false -> c_phony c = false -> decide x c (Some (command_result c outs)) ins outs = DUpdateOnly) /\
   command_valid c (command_result c outs) outs = Some true.
 Proof.
-  intros D A Z B M N.
+  intros D A Z M N.
   assert (SC : shortcut x c (Some (command_result c outs)) ins outs = true).
   { unfold shortcut. rewrite D, M. cbn [negb andb].
     unfold hash_allows_update, command_result. cbn [prior_hash]. rewrite N.eqb_refl, orb_true_r. cbn [andb].
@@ -741,8 +762,8 @@ Proof. vm_compute. repeat split; auto; discriminate. Qed.
 Example decide_bad_input_skips_instance :
   let ins := [(CExplicit, NExistingInput ex_src); (CImplicit, NFailedCommand)] in
   existsb is_bad (requested ins) = true /\
-  shortcut ex_ctx (ex_cmd 8) (Some (NSuccessfulCommand 7 [ex_out])) ins [ex_out] = false /\
-  decide ex_ctx (ex_cmd 8) (Some (NSuccessfulCommand 7 [ex_out])) ins [ex_out] = DSkip false /\
+  decide ex_ctx (ex_cmd 7) (Some (NSuccessfulCommand 7 [ex_out])) ins [ex_out] = DSkip false /\
+  decide ex_ctx (ex_cmd 7) (Some (NSuccessfulCommand 7 [ex_out])) [(CExplicit, NExistingInput ex_src)] [ex_out] = DUpdateOnly /\
   decide ex_ctx (ex_cmd 8) None [(CExplicit, NMissingInput)] [missing_info] = DSkip true.
 Proof. vm_compute. repeat split; auto. Qed.
 
@@ -784,14 +805,13 @@ Example decide_fresh_no_run_instance :
   c_has_deps c = false /\
   forallb (fun f => negb (is_missing f)) outs = true /\
   (forall o, In o outs -> ts_lt (0, 0) (mod_time o)) /\
-  existsb is_bad (requested ex_ins) = false /\
-  forallb (fun v => negb (delivers_missing v)) (requested ex_ins) = true /\
+  forallb stamped (requested ex_ins) = true /\
   all_newer ex_ins outs /\
   decide ex_ctx c (Some (command_result c outs)) ex_ins outs = DUpdateOnly.
 Proof.
   cbv zeta. split; [reflexivity|]. split; [reflexivity|]. split.
   { intros o I. cbn in I. destruct I as [<-|[<-|[]]]; unfold ts_lt; cbn; lia. }
-  split; [reflexivity|]. split; [reflexivity|]. split; [|vm_compute; reflexivity].
+  split; [reflexivity|]. split; [|vm_compute; reflexivity].
   intros o v IO IV S. cbn in IO, IV.
   destruct IO as [<-|[<-|[]]]; destruct IV as [<-|[<-|[]]]; unfold ts_lt; cbn; lia.
 Qed.
@@ -814,3 +834,35 @@ Example fresh_up_to_date_instance :
   (* ... which always runs once its task exists *)
   rule_step ex_ctx c (Some (command_result c [ex_out])) ex_ins [true; false; false] [ex_out] = STask DRun.
 Proof. vm_compute. repeat split; auto. Qed.
+
+(* ------------------------------------------------------------------ what the command hash covers *)
+
+Lemma app_eq_length_l {A} (a b c d : list A) : length a = length c -> a ++ b = c ++ d -> a = c /\ b = d.
+Proof.
+  revert c. induction a as [|x a IH]; intros [|y c] L E; cbn in L; try discriminate.
+  - auto.
+  - cbn in E. injection E as E1 E2. destruct (IH c) as [H1 H2]; [lia|assumption|]. subst. auto.
+Qed.
+
+(* the hashed material determines the command line and the three declared input lists: any rewiring (adding,
+   removing, renaming, reordering an input, or moving it to another class) changes it *)
+Lemma hash_material_injective d1 d2 : hash_material d1 = hash_material d2 -> d1 = d2.
+Proof.
+  destruct d1 as [c1 e1 i1 o1], d2 as [c2 e2 i2 o2]. unfold hash_material. cbn [d_command d_explicit d_implicit d_order_only].
+  intros H. injection H as HC HE HI HL.
+  destruct (app_eq_length_l e1 (i1 ++ o1) e2 (i2 ++ o2) HE HL) as [E1 R].
+  destruct (app_eq_length_l i1 o1 i2 o2 HI R) as [E2 E3]. subst. reflexivity.
+Qed.
+
+(* before the repair the material was the command line alone: an implicit input could be added unnoticed *)
+Lemma hash_material_unrepaired_refuted :
+  exists d1 d2, d1 <> d2 /\ hash_material_unrepaired d1 = hash_material_unrepaired d2 /\ hash_material d1 <> hash_material d2.
+Proof.
+  exists (mkDef [99] [[97]] [] []), (mkDef [99] [[97]] [[98]] []).
+  split; [discriminate|]. split; [reflexivity|]. discriminate.
+Qed.
+
+Example hash_material_instance :
+  hash_material (mkDef [99] [[97]] [[98]] []) <> hash_material (mkDef [99] [[97]] [] [[98]]) /\
+  hash_material (mkDef [99] [[97]; [98]] [] []) <> hash_material (mkDef [99] [[98]; [97]] [] []).
+Proof. split; discriminate. Qed.
